@@ -27,7 +27,7 @@ pub fn gen_case(seed: u64, focus: &str) -> Value {
         risky: false,
         id_prefix: String::new(),
         ties: g.chance(2, 3),
-        sentinels: false,
+        sentinels: true,
         nonzero_diagonal: false,
     };
     let (instance, summary) = gen_instance(&mut g, &opts);
@@ -425,7 +425,7 @@ pub fn apply_op(cx: &mut Ctx, s: &Schedule, op: &Value) -> Schedule {
             let is_dummy = before.dummies.contains_key(&d);
             let nodes = before.dummies.get(&d).cloned().unwrap_or_default();
             let mismatch = nodes.iter().any(|n| !compatible(cx, *n, vt));
-            let full = nodes.iter().any(|n| formation_full(cx, &before, *n));
+            let full = nodes.iter().any(|n| formation_full(cx, &before, *n)) || !is_path(&cx.ad, &cx.inst, &nodes);
             match guarded(|| s.spawn_vehicle_to_replace_dummy_tour(d, vt)) {
                 Err(p) => cx.v("C13", &format!("C13.spawn_replace_dummy.panic:{}", panic_signature(&p)), format!("spawn_vehicle_to_replace_dummy_tour({}, {}) panicked: {}", d, vt, p)),
                 Ok(Err(e)) => {
@@ -665,6 +665,10 @@ pub fn apply_op(cx: &mut Ctx, s: &Schedule, op: &Value) -> Schedule {
             };
             // nodes the receiver already serves (coupled trips): net effect on formations is not specified
             let overlap = m_acts.iter().any(|n| tr.contains(n));
+            // a dummy provider may have lost its connecting slots: a segment across the gap is no path
+            let segment_not_a_path = !is_path(&cx.ad, &cx.inst, &m);
+            // (if the provider's tour is broken elsewhere the operation may be refused as well)
+            let m_not_a_path = segment_not_a_path || !is_path(&cx.ad, &cx.inst, &tp);
             if opname == "override_reassign" {
                 let only_r_real_full = r_real && !p_real && m_acts.iter().any(|n| formation_full(cx, &before, *n));
                 let (exp_r, exp_dropped) = ref_insert(&cx.ad, &cx.inst, &tr, !r_real, &m);
@@ -672,7 +676,7 @@ pub fn apply_op(cx: &mut Ctx, s: &Schedule, op: &Value) -> Schedule {
                     Err(pn) => cx.v("C13", &format!("C13.override_reassign.panic:{}", panic_signature(&pn)), format!("override_reassign([{}..{}], {}, {}) panicked: {}", cx.name(a), cx.name(b), p, r, pn)),
                     Ok(Err(e)) => {
                         refused = true;
-                        if matches!(rem, RefRemove::Ok(..)) && !mismatch && !only_r_real_full && !cross_type_depot_full {
+                        if matches!(rem, RefRemove::Ok(..)) && !mismatch && !only_r_real_full && !cross_type_depot_full && !m_not_a_path {
                             cx.v("C13", "C13.override_reassign.refused_valid", format!("override_reassign([{}..{}], {}, {}) refused: {}", cx.name(a), cx.name(b), p, r, e));
                         }
                     }
@@ -680,6 +684,9 @@ pub fn apply_op(cx: &mut Ctx, s: &Schedule, op: &Value) -> Schedule {
                         let after = snap(&cx.ad, &s2);
                         if mismatch {
                             cx.v("C13", "C13.override_reassign.accepted_foreign_type", format!("moved {:?} from {} to {} of another type", cx.names_of(&m), p, r));
+                        }
+                        if segment_not_a_path {
+                            cx.v("C13", "C13.override_reassign.accepted_non_path_segment", format!("moved {:?} from {} to {} although consecutive nodes of it cannot reach each other", cx.names_of(&m), p, r));
                         }
                         match &rem {
                             RefRemove::Refuse(why) => cx.v("C12", &format!("C12.remove_accepted_invalid:{}", why.replace(' ', "_")), format!("override_reassign removed [{}..{}] from {:?} of {} which must be refused ({})", cx.name(a), cx.name(b), cx.names_of(&tp), p, why)),
@@ -744,7 +751,7 @@ pub fn apply_op(cx: &mut Ctx, s: &Schedule, op: &Value) -> Schedule {
                     Ok(Err(e)) => {
                         refused = true;
                         let only_r_real_full = r_real && !p_real && m_acts.iter().any(|n| formation_full(cx, &before, *n));
-                        if !mismatch && !only_r_real_full && !cross_type_depot_full {
+                        if !mismatch && !only_r_real_full && !cross_type_depot_full && !m_not_a_path {
                             cx.v("C13", "C13.fit_reassign.refused_valid", format!("fit_reassign([{}..{}], {}, {}) refused: {}", cx.name(a), cx.name(b), p, r, e));
                         }
                     }
